@@ -60,6 +60,18 @@ def _run_task(task):
                 'wall_s': round(time.time() - t0, 3)}
 
 
+def relabel(res, prop):
+    """obligations of a contract shared with another property: the same discharged obligation is reported under `prop`
+    (its clause text belongs to both statements)"""
+    for r in res.get('results', []):
+        if r.get('prop') == 'C07' and prop != 'C07':
+            continue          # exits part-way (asserts etc.) stay with C07
+        r['shared_with'] = r.get('prop')
+        r['prop'] = prop
+        r['id'] = prop + r['id'][r['id'].index('/'):] if '/' in r['id'] else r['id']
+    return res
+
+
 def sanitize(s):
     return re.sub(r'[^A-Za-z0-9_.@-]+', '_', s)[:150]
 
@@ -191,9 +203,15 @@ class Check:
         for r in covers:
             if r['status'] == 'refuted':
                 checker_errors.append(f'cover unsatisfiable (vacuous precondition): {r["id"]}')
+        # components the run-time guard saw violated on REAL hands (component name -> example)
+        guard_hits = {}
         for r in guards:
-            if r['status'] != 'valid':
-                checker_errors.append(f'run-time guard failed: {r["id"]}: {r.get("detail", "")}')
+            if r['status'] != 'valid' and isinstance(r.get('detail'), dict):
+                for k, ex in (r['detail'].get('examples') or {}).items():
+                    guard_hits.setdefault(k.split(' at ')[0], (k, ex))
+                for k in (r['detail'].get('failures') or {}):
+                    guard_hits.setdefault(k.split(' at ')[0], (k, 'see guard_details'))
+        explained_guard = set()
         for r in counted:
             if r['status'] == 'valid':
                 continue
@@ -202,8 +220,21 @@ class Check:
                 continue
             f = self.match_finding(r, findings)
             path, outcome = self.replay(r)
+            comp = (r.get('meta') or {}).get('component')
+            if outcome.get('confirmed') is not True and comp in guard_hits:
+                # the same component is violated on a real hand played by the guard: that hand is the failing input
+                outcome = {'confirmed': True, 'detail': f'refuted deductively; the run-time guard saw the same component violated on a real '
+                           f'hand: {guard_hits[comp][0]}: {guard_hits[comp][1]}'}
+                explained_guard.add(comp)
             r['replay'] = outcome
             r['replay_file'] = path
+            try:
+                fp = os.path.join(OUT, path)
+                rep = json.load(open(fp))
+                rep['replay'] = outcome
+                json.dump(rep, open(fp, 'w'), indent=1, default=str)
+            except Exception:     # noqa
+                pass
             if f is not None:
                 known.append((r, f))
                 continue
@@ -212,6 +243,13 @@ class Check:
                                       f'{r["id"]}: {outcome.get("detail")}')
                 continue
             violations.append((r, path, outcome))
+        for r in guards:
+            if r['status'] != 'valid':
+                d = r.get('detail') if isinstance(r.get('detail'), dict) else {}
+                names = {k.split(' at ')[0] for k in (d.get('failures') or {})}
+                if not names or not names <= explained_guard:
+                    checker_errors.append(f'run-time guard failed (no refuted obligation explains it: the component is too strong, or the '
+                                          f'repository is defective): {r["id"]}: {str(r.get("detail", ""))[:1500]}')
         seen_known = set()
         for r, f in known:
             if f['what'] not in seen_known:
